@@ -68,7 +68,7 @@ type svdCfg struct {
 }
 
 func genDgesvd(g *vlib.G) {
-	lim := p3(g, 6, 8, 11)
+	lim := p3(g, 6, 9, 12)
 	profs := profSet(g, 4)
 	// leading dimensions vary independently: (lda, ldu, ldvt) paddings all different
 	ldsSmall := [][3]int{{0, 0, 0}, {2, 1, 3}}
@@ -355,7 +355,7 @@ func bidiag(m, n int, d, e []float64) M {
 }
 
 func genDgebrd(g *vlib.G) {
-	lim := p3(g, 6, 8, 11)
+	lim := p3(g, 6, 9, 12)
 	profs := profSet(g, 4)
 	type cfg struct {
 		m, n int
@@ -1040,7 +1040,7 @@ func bidiagSpecial(n int) (names []string, ds, es [][]float64) {
 }
 
 func genDbdsqrSpecial(g *vlib.G) {
-	for n := 1; n <= p3(g, 8, 12, 16); n++ {
+	for n := 1; n <= p3(g, 8, 14, 18); n++ {
 		names, ds, es := bidiagSpecial(n)
 		for k := range names {
 			for _, uplo := range []blas.Uplo{blas.Upper, blas.Lower} {
